@@ -9,7 +9,7 @@ from rv.oracle.sim import Net
 RULE = (
     "histories of 1..5 composition calls on a random parent with undriven 'hole' buffers: add_subcircuit (children with 1..3 inputs, optional nested "
     "blackboxes, the same child instantiated up to 3x under different names, full/partial connection maps, inputs fed from arbitrary nets, outputs driving "
-    "hole buffers), add_blackbox followed - possibly after other calls - by fill_blackbox, and a final strip_blackboxes with/without ignore_pins. After every call "
+    "hole buffers), add_blackbox followed - possibly after other calls - by fill_blackbox, and a final strip_blackboxes with/without ignore_pins (str, list, tuple, set, frozenset); add_subcircuit also with strip_io=False (io kept; a connection onto a kept input must be refused). After every call "
     "the parent's (types, output marks, edges, registry) must equal the state computed by a dict/set model of the call, the child must be unchanged, and for ALL "
     "valuations of the composite's free signals every spliced node name_n equals n in a separate simulation of the child fed with the attached nets' values and every "
     "pre-existing node keeps its value. non-trivial = >=2 calls; distinct = canonical history"
@@ -100,6 +100,12 @@ def gen(rng, ctx):
                     conns[o] = free_holes.pop(rng.randrange(len(free_holes)))
             if kind == "sub":
                 ops.append({"op": "add_subcircuit", "child": ci, "name": name, "connections": conns})
+                if rng.random() < 0.15:
+                    # io kept: child inputs stay primary inputs (nothing may drive them), child outputs stay marked
+                    ops[-1]["strip_io"] = False
+                    if rng.random() < 0.8:
+                        for i in cins:
+                            conns.pop(i, None)
                 nodes_now += [f"{name}_{n}" for n, _, _ in ch["nodes"]]
             else:
                 ops.append({"op": "add_blackbox", "child": ci, "name": name, "connections": conns})
@@ -113,6 +119,8 @@ def gen(rng, ctx):
         if scan:
             ign = rng.choice(["SD", "QN", "CK", ["SD"], ["QN", "SE"], None])
         ops.append({"op": "strip_blackboxes", "ignore_pins": ign})
+        if isinstance(ign, list) and rng.random() < 0.5:
+            ops[-1]["ign_rep"] = rng.choice(["tuple", "set", "frozenset"])
     return {"parent": parent, "children": children, "ops": ops, "via": rng.choice(["graph", "api"]), "probe_rejected": rng.random() < 0.25}
 
 
@@ -183,10 +191,16 @@ def check(case, ctx):
             ign = op["ignore_pins"]
             exp, ren, drop = K.exp_strip_blackboxes(before, [ign] if isinstance(ign, str) else ign)
             clash = [v for k_, v in ren.items() if v in before.types]
-            ok, r = ctx.call(cg.tx.strip_blackboxes, c, ign)
+            ign_arg = ign
+            if op.get("ign_rep"):
+                ign_arg = {"tuple": tuple, "set": set, "frozenset": frozenset}[op["ign_rep"]](ign)
+                ctx.count(f"strip_ignore_pins_as:{op['ign_rep']}")
+            ok, r = ctx.call(cg.tx.strip_blackboxes, c, ign_arg)
             if not ok:
                 if isinstance(r, ValueError) and clash:
                     ctx.reject("strip_name_clash")
+                elif isinstance(r, TypeError) and op.get("ign_rep"):
+                    ctx.reject("strip_ignore_pins_container_refused")
                 else:
                     ctx.violation("strip_raised", f"{what} raised {r!r}\n{getattr(r, '_tb', '')}")
                 return
@@ -239,8 +253,22 @@ def check(case, ctx):
                     ctx.violation("rejected_call_changed_parent", f"{what}: the refused add_subcircuit left nodes/edges behind: {sorted(set(pn.types) - set(before_net.types))[:4]}")
                     return
             conns = dict(op["connections"])
-            exp = K.exp_add_subcircuit(before, kst, name, conns)
-            ok, r = ctx.call(c.add_subcircuit, kid, name, conns)
+            strip_io = op.get("strip_io", True)
+            exp = K.exp_add_subcircuit(before, kst, name, conns, strip_io=strip_io)
+            if strip_io:
+                ok, r = ctx.call(c.add_subcircuit, kid, name, conns)
+            else:
+                ok, r = ctx.call(c.add_subcircuit, kid, name, conns, strip_io=False)
+                ctx.count("add_subcircuit_strip_io_false")
+                if any(k_ in knet.inputs() for k_ in conns):
+                    # a kept primary input cannot be driven: the call must be refused and leave the parent alone
+                    ctx.count("strip_io_false_with_input_connection")
+                    pn = Net.of(c)
+                    if ok or not isinstance(r, ValueError):
+                        ctx.violation("driven_input_accepted", f"{what}: strip_io=False with a connection onto a child input was accepted ({r!r})")
+                    elif pn.types != before_net.types or pn.edges() != before_net.edges() or pn.bbs != before_net.bbs:
+                        ctx.violation("rejected_call_changed_parent", f"{what}: the refused add_subcircuit left nodes/edges behind: {sorted(set(pn.types) - set(before_net.types))[:4]}")
+                    return
             if len(conns) < len(knet.inputs() | knet.outputs):
                 ctx.count("partial_connections")
             if knet.bbs:
@@ -317,7 +345,7 @@ def check(case, ctx):
         if d:
             ctx.violation("compose_structure", f"{what}: {d}")
             return
-        if op["op"] != "add_blackbox":
+        if op["op"] != "add_blackbox" and op.get("strip_io", True):
             if after.inputs() != before.inputs():
                 ctx.violation("parent_inputs_changed", f"{what}: parent inputs {sorted(before.inputs())} -> {sorted(after.inputs())}")
                 return
@@ -343,5 +371,5 @@ def check(case, ctx):
 
 
 def gates(counters, table, tier):
-    need = ["conflicting_connections_probe", "swapped_direction_fill_probe", "strip_result_edit_probe", "rejected_call_probe", "strip_str_ignore_with_substring_pins", "child_with_feedthrough_port", "instance_name_is_prefix_of_another", "op:add_subcircuit", "op:add_blackbox", "op:fill_blackbox", "op:strip_blackboxes", "partial_connections", "child_with_nested_blackbox", "fill_after_other_calls", "fill_immediately", "same_child_instantiated_twice", "strip_with_ignore", "strip_with_blackboxes", "functional_checks"]
+    need = ["conflicting_connections_probe", "swapped_direction_fill_probe", "strip_result_edit_probe", "rejected_call_probe", "strip_str_ignore_with_substring_pins", "child_with_feedthrough_port", "instance_name_is_prefix_of_another", "op:add_subcircuit", "op:add_blackbox", "op:fill_blackbox", "op:strip_blackboxes", "partial_connections", "child_with_nested_blackbox", "fill_after_other_calls", "fill_immediately", "same_child_instantiated_twice", "strip_with_ignore", "strip_with_blackboxes", "functional_checks", "add_subcircuit_strip_io_false", "strip_ignore_pins_as:tuple", "strip_ignore_pins_as:set"]
     return [f"{k} seen {counters.get(k, 0)} times" for k in need if counters.get(k, 0) < 5]
